@@ -98,19 +98,27 @@ func (c *Ctx) ruleT4() {
 		if c.isTestFile(f.Pos()) || f.Parent() != nil {
 			continue
 		}
-		var canAppends []ssa.CallInstruction
 		var loads []ssa.CallInstruction
+		nCan := 0
 		for _, g := range withClosures(f) {
 			eachCall(g, func(call ssa.CallInstruction) {
 				if methodName(call) == "CanAppend" && c.isMethodOn(call, "CanAppend", ifaceLogAC) {
-					canAppends = append(canAppends, call)
+					nCan++
+				}
+				// the access check may live in a helper called from here
+				if h := call.Common().StaticCallee(); h != nil && h.Blocks != nil && h.Pkg == f.Pkg {
+					eachCall(h, func(hc ssa.CallInstruction) {
+						if methodName(hc) == "CanAppend" && c.isMethodOn(hc, "CanAppend", ifaceLogAC) {
+							nCan++
+						}
+					})
 				}
 				if methodName(call) == "Load" && recvOf(call) != nil && strings.Contains(typeStr(recvOf(call).Type()), "eplicator") {
 					loads = append(loads, call)
 				}
 			})
 		}
-		if len(canAppends) == 0 || len(loads) == 0 {
+		if nCan == 0 || len(loads) == 0 {
 			continue
 		}
 		if !c.isControlFn(f) {
@@ -152,20 +160,14 @@ func (c *Ctx) ruleT4() {
 				case *ssa.Call:
 					if b, ok := x.Call.Value.(*ssa.Builtin); ok && b.Name() == "append" {
 						checked++
-						okDom := false
-						for _, ca := range canAppends {
-							ev := errResult(ca)
-							if ev == nil {
-								continue
-							}
-							for _, t := range errTests(ev) {
-								if t.Ok != nil && branchCovers(t.Ok, x.Block()) {
-									okDom = true
-								}
+						ef := c.entryFacts(x.Block(), 0)
+						for _, el := range variadicElems(x.Call.Args[len(x.Call.Args)-1]) {
+							if !ef["acl("+nf(strip(el))+")"] {
+								viol = true
 							}
 						}
-						if !okDom {
-							viol = true
+						if len(x.Call.Args) == 2 && len(variadicElems(x.Call.Args[1])) == 0 {
+							viol = true // appending a whole slice of unknown provenance
 						}
 						walk(x.Call.Args[0], depth+1)
 					}
@@ -760,7 +762,7 @@ func (c *Ctx) ruleB5() {
 				opts = a
 			}
 		}
-		cv := structLitFields(opts)["Cache"]
+		cv := c.litField(opts, "Cache")
 		if cv != nil && d[cv] {
 			if _, isLoadOfField := cv.(*ssa.UnOp); !isLoadOfField {
 				c.ok("B5", cons, ctorCall.Pos(), "the store receives the cache loaded for its own address")
